@@ -102,15 +102,7 @@ func gen1(root string, c caseSpec, snapshot string) genResult {
 		cfg := hybridbuffer.Config{RootPath: filepath.Join(root, "buf"), MaxBufSize: datasize.ByteSize(1 << 30)}
 		buf := cfg.NewBufferer(logger.Root(), "q1", matchChunkID, mf, false)
 		qdir := buf.(interface{ QueueDirPath() string }).QueueDirPath()
-		switch c.foreign {
-		case "zero":
-			os.WriteFile(filepath.Join(qdir, "0000.ch"), nil, 0o644)
-		case "badname":
-			os.WriteFile(filepath.Join(qdir, "0000.ch.tmp"), []byte("garbage"), 0o644)
-			os.WriteFile(filepath.Join(qdir, "README"), []byte("x"), 0o644)
-		case "subdir":
-			os.Mkdir(filepath.Join(qdir, "0000x.ch"), 0o755)
-		}
+		_ = qdir
 		buf.Start()
 		args := buf.RegisterNewConsumer()
 		// a consumer that takes nothing and finishes at stop
@@ -197,6 +189,27 @@ func runCase(c caseSpec) (string, string) {
 		return "", ""
 	case g1.status != "ok":
 		return "gen1-" + g1.status, fmt.Sprintf("%s: first generation ended with %s: %s", c.desc, g1.status, firstLines(g1.detail, 6))
+	}
+	// damaged / foreign entries found at startup: placed in the queue directory between the two generations, before,
+	// between and behind the real chunks
+	if c.foreign != "" {
+		qdir := queueDir(recoverRoot)
+		names := map[string]string{"first": "0000.ch", "middle": "0001a.ch", "last": "9999.ch"}
+		kind, pos := c.foreign, "first"
+		if i := strings.IndexByte(c.foreign, '@'); i > 0 {
+			kind, pos = c.foreign[:i], c.foreign[i+1:]
+		}
+		switch kind {
+		case "zero":
+			os.WriteFile(filepath.Join(qdir, names[pos]), nil, 0o644)
+		case "badname":
+			os.WriteFile(filepath.Join(qdir, names[pos]+".tmp"), []byte("garbage"), 0o644)
+			os.WriteFile(filepath.Join(qdir, "README"), []byte("x"), 0o644)
+		case "subdir":
+			os.Mkdir(filepath.Join(qdir, names[pos]), 0o755)
+		case "symlink-dangling":
+			os.Symlink(filepath.Join(qdir, "nowhere"), filepath.Join(qdir, names[pos]))
+		}
 	}
 	g2 := gen2(recoverRoot)
 	if g2.status != "ok" {
@@ -381,11 +394,14 @@ func enumerate(ctx *seq.Ctx) {
 	}
 	// (d) damaged or foreign files found at startup never block recovery of the others
 	ctx.Group("foreign-files")
-	for _, f := range []string{"zero", "badname", "subdir"} {
-		desc := "foreign/" + f
-		ctx.Case(desc, true, "", func() (string, string) {
-			return runCase(caseSpec{size: 3, pos: 1, foreign: f, desc: desc, plan: vfs.Plan{LimitBytes: -1}})
-		})
+	for _, kind := range []string{"zero", "badname", "subdir", "symlink-dangling"} {
+		for _, pos := range []string{"first", "middle", "last"} {
+			f := kind + "@" + pos
+			desc := "foreign/" + f
+			ctx.Case(desc, true, "", func() (string, string) {
+				return runCase(caseSpec{size: 3, pos: 1, foreign: f, desc: desc, plan: vfs.Plan{LimitBytes: -1}})
+			})
+		}
 	}
 }
 
